@@ -8,6 +8,10 @@ def run(ctx):
     for tags in (["verif"] + (["verif poll_opt gc_opt"] if ctx.thorough else [])):
         t = system.record(ctx, "sys-" + tags.replace(" ", "+"), tags=tags)
         system.validate(ctx, t, ["TrLife"], "life cycle, " + tags)
+    # engine shutdown with connections open on every loop (all sources, among them an OnClose that answers Shutdown
+    # from every connection of the final sweep): each of them is owed its one OnClose
+    t = system.record(ctx, "shutdown", test="TestVerifShutdown")
+    system.validate(ctx, t, ["TrLife"], "connections open at shutdown")
     if vlib.have_strace():
         # a loop that ends through its error exit (accept failing for good) owes its connections their OnClose too
         t = system.record(ctx, "accept-fatal", test="TestVerifFaults", env={"VERIF_FAULT_SET": "fatal"})
